@@ -31,6 +31,46 @@ pub fn lookup_info() -> LookupInfo {
     LAST_LOOKUP.with(|c| c.get())
 }
 
+/// One sample of the search loop of `lonlat_to_cell`: the estimate it produced, whether the loop treated
+/// it as already seen, and (if it was tested) the containment value of the query point
+#[derive(Debug, Clone, Copy, PartialEq)]
+pub struct LookupStep {
+    pub estimate: u64,
+    pub seen_before: bool,
+    pub containment: Option<f64>,
+}
+
+thread_local! {
+    static LOOKUP_STEPS: std::cell::RefCell<Vec<LookupStep>> = const { std::cell::RefCell::new(Vec::new()) };
+}
+
+pub fn lookup_steps_begin() {
+    LOOKUP_STEPS.with(|s| s.borrow_mut().clear());
+}
+
+pub fn lookup_step_estimate(estimate: u64, seen_before: bool) {
+    LOOKUP_STEPS.with(|s| {
+        s.borrow_mut().push(LookupStep {
+            estimate,
+            seen_before,
+            containment: None,
+        })
+    });
+}
+
+pub fn lookup_step_tested(containment: f64) {
+    LOOKUP_STEPS.with(|s| {
+        if let Some(last) = s.borrow_mut().last_mut() {
+            last.containment = Some(containment);
+        }
+    });
+}
+
+/// Step log of the most recent `lonlat_to_cell` on the calling thread (empty below resolution 2)
+pub fn lookup_steps() -> Vec<LookupStep> {
+    LOOKUP_STEPS.with(|s| s.borrow().clone())
+}
+
 /// View of the calling thread's projection memo cache
 #[derive(Debug, Clone, PartialEq)]
 pub struct CacheView {
